@@ -231,7 +231,11 @@ type c13Level struct {
 	// last code are ordered lexicographically but not byte by byte, e.g.
 	// <00FE>-<0101>.  What such a range maps is not part of the model; only the
 	// agreement of enumeration and lookup is judged on these rows.
-	crossing  []c13Rect
+	crossing []c13Rect
+	// loose holds the codes of bfranges whose value list is shorter than the
+	// range: what they map is not part of the model either (and may hide what
+	// a parent maps), only agreement is judged
+	loose     []c13Rect
 	hSingles  []cmap.Single
 	hRanges   []cmap.Range
 	tuSingles []cmap.ToUnicodeSingle
@@ -797,6 +801,17 @@ func c13AddCrossing(c *kit.Case, l *c13Level, taken []c13Rect) {
 			l.probes = append(l.probes, string(p))
 		}
 		c.Inc("hand_ranges_crossing_the_last_byte")
+		// on the second of the two rows (which the crossing range leaves alone up
+		// to last): a bfrange whose list of values is shorter than the range
+		if int(last[n-1])+12 < int(r.hi[n-1]) && rng.Bool() {
+			f2, l2 := bytes.Clone(last), bytes.Clone(last)
+			f2[n-1] = last[n-1] + 2
+			l2[n-1] = last[n-1] + 11
+			vals := []string{"p", "q", "r"}[:2+rng.Intn(2)]
+			l.tuRanges = append(l.tuRanges, cmap.ToUnicodeRange{First: f2, Last: l2, Values: vals})
+			l.loose = append(l.loose, c13Rect{first: f2, last: l2})
+			c.Inc("hand_bfranges_with_a_short_list")
+		}
 		return
 	}
 }
@@ -805,6 +820,17 @@ func (l *c13Level) inCrossing(code string) bool {
 	for i := range l.crossing {
 		if l.crossing[i].contains(code) {
 			return true
+		}
+	}
+	return false
+}
+
+func c13InLoose(chain []*c13Level, code string) bool {
+	for _, l := range chain {
+		for i := range l.loose {
+			if l.loose[i].contains(code) {
+				return true
+			}
 		}
 	}
 	return false
@@ -1063,6 +1089,26 @@ func c13Build(c *kit.Case, chain []*c13Level) (*cmap.File, *cmap.ToUnicodeFile, 
 			}
 			g.SetMapping(codec, data)
 			c.Inc("setmapping_calls")
+			if len(data) > 0 && c.Rng.Chance(1, 3) {
+				// a copy of the CMap which then gets another mapping (and the other
+				// way round: the original is set again while a copy is alive); the
+				// CMap that is checked below is never touched after its last SetMapping
+				other := make(map[charcode.Code]cid.CID, len(data))
+				for k, v := range data {
+					other[k] = v + 7777
+				}
+				if c.Rng.Bool() {
+					cl := g.Clone()
+					cl.SetMapping(codec, other)
+				} else {
+					g.SetMapping(codec, other)
+					keep := g.Clone()
+					keep.Parent = g.Parent
+					g.SetMapping(codec, data)
+					_ = keep
+				}
+				c.Inc("setmapping_on_a_clone")
+			}
 			if l.useUnionCodec {
 				l.csr = space // SetMapping takes the code space from the codec
 			}
@@ -1276,6 +1322,11 @@ func (m *c13Mon) checkTU(stage string, tu *cmap.ToUnicodeFile, chain []*c13Level
 	}
 
 	eff := c13EffText(chain)
+	for k := range eff {
+		if c13InLoose(chain, k) {
+			delete(eff, k) // hidden by a range that is outside the model
+		}
+	}
 	for k, v := range eff {
 		if got, ok := tu.Lookup([]byte(k)); !ok || got != v {
 			m.fail("tu/"+stage+"/lookup/mapped"+c13ThroughInvalid(chain, k), "%s: Lookup(<%X>) = %+q, %v; want %+q", what, k, got, ok, v)
@@ -1340,6 +1391,28 @@ func (m *c13Mon) checkTU(stage string, tu *cmap.ToUnicodeFile, chain []*c13Level
 // agreeText removes the codes on crossing rows from got after checking that
 // Lookup gives the same text for them.
 func (m *c13Mon) agreeText(chain []*c13Level, tu *cmap.ToUnicodeFile, key, what string, got, want map[string]string) {
+	// the other direction: what Lookup maps on these rows is enumerated
+	for _, l := range chain[:1] {
+		for i := range l.crossing {
+			q := &l.crossing[i]
+			n := len(q.first)
+			for _, row := range [][]byte{q.first, q.last} {
+				code := bytes.Clone(row)
+				for b := int(q.first[n-1]); b <= int(q.last[n-1]); b++ {
+					code[n-1] = byte(b)
+					k := string(code)
+					if _, mapped := want[k]; mapped {
+						continue
+					}
+					lv, ok := tu.Lookup(code)
+					if gv, inAll := got[k]; ok && (!inAll || gv != lv) {
+						m.fail(key, "%s: Lookup(<%X>) = %+q but the enumeration gives %+q (present: %v)", what, code, lv, gv, inAll)
+						return
+					}
+				}
+			}
+		}
+	}
 	for k, v := range got {
 		if _, mapped := want[k]; mapped || !c13InCrossing(chain, k) {
 			continue
